@@ -16,12 +16,13 @@ VIAS = ["Start", "Probe", "Advance", "ArpReplyAnswer", "ArpReplyIgnored", "Clien
 # constant sets (specs/lb/*.cfg) and the adapter parameters that realise them
 P_N1 = dict(servers=["s1"], unit=1, M=7, I=2, B=1)
 P_N2 = dict(servers=["s1", "s2"], unit=0.5, M=8, I=2, B=1)
-P_N2B = dict(servers=["s1", "s2"], unit=0.5, M=13, I=4, B=0)
-P_N2F = dict(servers=["s1", "s2"], unit=0.5, M=8, I=2, B=0)
-P_N5 = dict(servers=["s1", "s2", "s3", "s4", "s5"], unit=1, M=3, I=1, B=0)
+P_N2Z = dict(servers=["s1", "s2"], unit=0.5, M=8, I=2, B=0)
+S5 = ["s1", "s2", "s3", "s4", "s5"]
+P_N5 = dict(servers=S5, unit=1, M=4, I=2, B=1)
+P_N5F = dict(servers=S5, unit=1, M=3, I=1, B=0)
 P_SIM = dict(servers=["s1", "s2"], unit=0.5, M=30, I=6, B=3)
 P_REAL2 = dict(servers=["s1", "s2"], unit=0.5, M=None, I=None, B=16)
-P_REAL5 = dict(servers=["s1", "s2", "s3", "s4", "s5"], unit=1, M=None, I=None, B=2)
+P_REAL5 = dict(servers=S5, unit=1, M=None, I=None, B=2)
 
 
 def skey(x):
@@ -117,23 +118,29 @@ def run(ctx):
       "free-running one in the trace driver",
       "the projection of iplb.live_servers / outstanding_probes / memory / servers is read after every step"]
   # 1. the properties on the model
-  jobs = [("MC_n1.cfg", "1 server (alt. address), 1 connection on 2 client ports, W5 A3 M7 I2", ACTIONS),
-          ("MC_n2.cfg", "2 servers, 1 connection, W5 A6 M8 I2", [a for a in ACTIONS if a != "Other"]),
-          ("MC_n5.cfg", "5 servers (2 answer), 1 connection, W1 A3 M3 I1: probe instants on the deadlines",
-           [a for a in ACTIONS if a not in ("Other", "Advance")])]
+  no_other = [x for x in ACTIONS if x != "Other"]
+  jobs = [("MC_n1.cfg", "1 server (alt. address), 1 connection on 2 client ports, W5 A3 M7 I2, deltas {2,3}", ACTIONS),
+          ("MC_n2.cfg", "2 servers (alt. address for s1), 1 connection, W5 A6 M8 I2, delta 3", no_other),
+          ("MC_n5.cfg", "5 servers (2 answer), 1 connection, W1 A3 M3 I1: probe instants fall on the deadlines",
+           [x for x in no_other if x != "Advance"])]
   if not quick:
-    jobs += [("MC_n2b.cfg", "2 servers, 1 connection, W5 A6 M13 I4, no buffers", [a for a in ACTIONS if a != "Other"]),
-             ("MC_n2f.cfg", "2 servers, 2 connections, W5 A6 M8 I2, no buffers", [a for a in ACTIONS if a != "Other"]),
-             ("MC_n1t.cfg", "1 server, every tick, W5 A3 M7 I2", ACTIONS),
+    jobs += [("MC_n1t.cfg", "1 server, every tick (deltas {1,2}), W5 A3 M7 I2", no_other),
+             ("MC_n1f.cfg", "1 server, 2 connections", no_other),
+             ("MC_n2b.cfg", "2 servers, 1 connection, W5 A6 M13 I4, no buffers", no_other),
+             ("MC_n2f.cfg", "2 servers, 2 connections, forward path only", ["Start", "Probe", "Advance", "ArpReply",
+              "ClientFast", "ClientKnown", "ClientNew", "ClientNoServer"]),
+             ("MC_n2d2.cfg", "2 servers, 1 connection, delta 2 (ticks 0,2,4 of every period), no buffers", no_other),
+             ("MC_n5t.cfg", "5 servers (2 answer), W1 A3 M4 I2, 1 buffer", [x for x in no_other if x != "Advance"]),
              ("MC_strict.cfg", "Strict = TRUE (no ServerCrash): 2 servers, 1 connection",
-              [a for a in ACTIONS if a not in ("Other", "ServerCrash")])]
+              [x for x in no_other if x != "ServerCrash"])]
   models(ctx, jobs, workers=4)
   # 2. spec -> code: every transition of the abstract graphs (quick: a seeded sample that contains every action)
   plans = [("EX_edges_n1.cfg", P_N1, 700 if quick else 8000),
            ("EX_edges_n2.cfg", P_N2, 900 if quick else 8000),
-           ("EX_edges_n5.cfg", P_N5, 700 if quick else 8000)]
+           ("EX_edges_n5.cfg", P_N5, 600 if quick else 8000)]
   if not quick:
-    plans += [("EX_edges_n2b.cfg", P_N2B, 6000), ("EX_edges_n2f.cfg", P_N2F, 6000)]
+    plans += [("EX_edges_n2xl.cfg", P_N2, 6000), ("EX_edges_n2f.cfg", P_N2Z, 6000),
+              ("EX_edges_n1f.cfg", dict(P_N1, B=0), 6000)]
   nsim = 30 if quick else 400
   exported, sims = exports([p[0] for p in plans],
                            [("EX_sim.cfg", dict(simulate=dict(num=nsim), depth=121, seed=ctx.seed + 1))])
